@@ -578,7 +578,7 @@ def execute(P, F, acc, pos, kw, body):
             if acc[0] in ('propset', 'propdel'): out = 'RET'      # attribute assignment / deletion: Python drops what the function returns
             elif script[0] == 'retzoo': out = 'RET' if res is hook.produced else 'RET:other'
             elif res is script[1]: out = 'RET'
-            elif type(res).__name__ == 'GeneratorWrapper': out = 'RETGEN'
+            elif type(res).__name__ == 'GeneratorWrapper' or inspect.isgenerator(res): out = 'RETGEN'     # a generator function: the call hands back a generator (wrapper)
             else: out = 'RET:other'
         if inspect.iscoroutine(hook.produced):
             hook.produced.close()
